@@ -286,18 +286,25 @@ def isBefore (a s0 : State) (w : WS) : Bool := sameView a s0 (upLids w) (w.store
 def isAfter (a fin : State) (w : WS) : Bool :=
   sameView a fin (w.rootIds ++ w.addedIds ++ upLids w) (w.stores.map (·.store))
 
-/-- the logical ids a reader can reach: what existed before, the roots (a store's root id is fixed), and the
-added nodes once their parents read as the transaction left them -/
-def liveLids (a fin : State) (w : WS) : List UUID :=
-  let parentAfter := if (upLids w).isEmpty then w.rootIds.all (fun r => (a.view r).isSome)
-    else sameView a fin (w.updated.map (·.1)) []
-  upLids w ++ w.rootIds ++ (if parentAfter then w.addedIds else [])
-
-/-- no reachable handle points at a missing blob (C10 restricted to the write set) -/
+/-- a handle that is there points at an existing blob -/
 def loadable (a : State) (lids : List UUID) : Bool :=
   lids.all (fun i => match a.reg i with
     | none => true
     | some h => a.blob h.active)
+
+/-- the handle is there and points at an existing blob -/
+def present (a : State) (lids : List UUID) : Bool :=
+  lids.all (fun i => match a.reg i with
+    | none => false
+    | some h => a.blob h.active)
+
+/-- Nothing a reader can reach dangles (C10 restricted to the write set): what existed before and the roots
+(a store's root id is fixed) are loadable when registered; the added nodes must be there once their parents read
+as the transaction left them (the parents' blobs name them as children). -/
+def reachableOk (a fin : State) (w : WS) : Bool :=
+  let parentAfter := if (upLids w).isEmpty then !w.rootIds.isEmpty && w.rootIds.all (fun r => (a.view r).isSome)
+    else sameView a fin (w.updated.map (·.1)) []
+  loadable a (upLids w ++ w.rootIds) && (!parentAfter || present a w.addedIds)
 
 /-! ## Maintenance scheduling (`onIdle`) -/
 
